@@ -12,9 +12,9 @@ LEVEL_NOTE = ("Trusted: virtual clock (time.time / time.monotonic patched before
               "configuration covered here: BasicRuntime as shipped; the server decorator stack is exercised by C15's workload.")
 DESIGN_REF = "§5 C05"
 RULE = "case = retry-family program (policy AST, per-attempt latencies and exception types); distinct = hash of (policy, failure pattern); non-trivial = >=2 executions"
-REQUIRED_REACH = ["retry_run", "retry_decision_eval", "stop_after_delay_eval", "non_retryable_eval", "retry_info_eval", "failure_report_eval", "queued_items_case"]
+REQUIRED_REACH = ["retry_run", "retry_decision_eval", "stop_after_delay_eval", "non_retryable_eval", "retry_info_eval", "failure_report_eval", "queued_items_case", "family_syncfan"]
 ASSUMPTIONS = ["stop_after_delay bounds are chosen away from ties with reachable elapsed sums", "wait strategies are wait_fixed here (C06 covers the others)"]
-FAMILIES = [("retry", 1)]
+FAMILIES = [("retry", 6), ("syncfan", 1)]
 
 
 def plan(tier, seed):
